@@ -238,12 +238,57 @@ def gen_make(rng, sid, small=True, allow_bad=True):
     fn = rng.weighted([('make', 60), ('make_qr', 12), ('make_micro', 10), ('make_sequence', 10), ('helper', 8)])
     if fn == 'helper':
         h = rng.choice(HELPERS)
-        kw = {'make_wifi': {'ssid': 'My WLAN;x', 'password': 'p\\w:"1', 'security': rng.choice(('WPA', 'WEP', None)), 'hidden': rng.random() < 0.3},
-              'make_mecard': {'name': 'Doe,John', 'email': 'me@example.org', 'phone': '+1 234', 'url': 'http://example.org/'},
-              'make_vcard': {'name': 'Doe;John', 'displayname': 'John Doe', 'email': ('a@example.org', 'b@example.org'), 'org': 'ACME'},
-              'make_geo': {'lat': rng.choice((38.8976763, -33.86, 0.0)), 'lng': rng.choice((-77.0365297, 151.2, 0.0))},
-              'make_email': {'to': 'me@example.org', 'subject': 'Hi & <you>', 'body': 'line1\nline2'},
-              'make_epc_qr': {'name': 'Wikimedia', 'iban': 'DE33100205000001194700', 'amount': rng.choice((1, 20.5, 999.99)), 'text': 'Spende'}}[h]
+
+        def opt(d, k, vals, p=0.4):
+            if rng.random() < p:
+                d[k] = rng.choice(vals)
+        if h == 'make_wifi':
+            kw = {'ssid': rng.choice(('My WLAN;x', 'Cafe', 'a:b,c\\d', 'Ünï')), 'password': rng.choice(('p\\w:"1', 'secret', None, '12345678')),
+                  'security': rng.choice(('WPA', 'WEP', None, 'wpa')), 'hidden': rng.random() < 0.3}
+        elif h == 'make_mecard':
+            kw = {'name': rng.choice(('Doe,John', 'Mustermann,Max', 'A;B'))}
+            opt(kw, 'email', ('me@example.org', ('a@example.org', 'b@example.org')))
+            opt(kw, 'phone', ('+1 234', ('1', '2')))
+            opt(kw, 'url', ('http://example.org/', ('http://a.example', 'http://b.example')))
+            opt(kw, 'memo', ('hello; world', 'x:y'))
+            opt(kw, 'nickname', ('Johnny',))
+            opt(kw, 'birthday', (19800101, '1990-12-31'))
+            opt(kw, 'city', ('Berlin',))
+            opt(kw, 'country', ('Germany',))
+        elif h == 'make_vcard':
+            kw = {'name': rng.choice(('Doe;John', 'Mustermann;Max', 'Solo')), 'displayname': rng.choice(('John Doe', 'Max M.'))}
+            opt(kw, 'email', ('a@example.org', ('a@example.org', 'b@example.org')))
+            opt(kw, 'phone', ('+49 30 1', ('1', '2', '3')))
+            opt(kw, 'org', ('ACME', ('ACME', 'Dept')))
+            opt(kw, 'url', ('https://example.org',))
+            opt(kw, 'title', ('Dr.', ('CEO', 'CTO')))
+            opt(kw, 'memo', ('line1\nline2', 'a,b;c'))
+            opt(kw, 'birthday', ('1980-01-01',))
+            opt(kw, 'street', ('Main St 1',))
+            opt(kw, 'city', ('Berlin',))
+            opt(kw, 'zipcode', ('10115', 10115))
+            opt(kw, 'country', ('Germany',))
+            if rng.random() < 0.2:
+                kw.update(lat=52.5, lng=13.4)
+            opt(kw, 'cellphone', ('+49 170 1',))
+            opt(kw, 'nickname', ('Johnny', ('J', 'JD')))
+        elif h == 'make_geo':
+            kw = {'lat': rng.choice((38.8976763, -33.86, 0.0, 90, -0.5)), 'lng': rng.choice((-77.0365297, 151.2, 0.0, -180, 7.25))}
+        elif h == 'make_email':
+            kw = {'to': rng.choice(('me@example.org', ('a@example.org', 'b@example.org')))}
+            opt(kw, 'cc', ('c@example.org', ('c@example.org', 'd@example.org')))
+            opt(kw, 'bcc', ('e@example.org',))
+            opt(kw, 'subject', ('Hi & <you>', 'Re: 100% sure?'))
+            opt(kw, 'body', ('line1\nline2', 'Grüße'))
+        else:
+            kw = {'name': rng.choice(('Wikimedia', 'Franz Mustermänn')), 'iban': rng.choice(('DE33100205000001194700', 'FR1420041010050500013M02606')),
+                  'amount': rng.choice((1, 20.5, 999.99, '12.3', 0.01))}
+            opt(kw, 'text', ('Spende', 'Rechnung 4711'), 0.6)
+            opt(kw, 'bic', ('BFSWDE33BER',))
+            opt(kw, 'purpose', ('CHAR',))
+            if 'text' not in kw:
+                opt(kw, 'reference', ('RF18539007547034',))
+            opt(kw, 'encoding', ('utf-8', 'iso-8859-1', 2), 0.3)
         return {'op': 'make', 'fn': 'helpers.' + h, 'content': None, 'kw': core.enc(kw), 'id': sid}
     kw = {}
     mode = rng.choice(('numeric', 'alphanumeric', 'byte', 'byte', 'kanji', 'hanzi'))
